@@ -729,7 +729,11 @@ def ww_width(
     Returns:
         torch.Tensor
     """
-    return (cost * (3 / 2) * gamma.square() * spot / a).pow(1 / 3)
+    width = (cost * (3 / 2) * gamma.square() * spot / a).pow(1 / 3)
+    # Without transaction cost the band has zero width, also where gamma is infinite
+    # (at the money at maturity or at zero volatility, where 0 * inf would give nan)
+    cost = torch.as_tensor(cost).to(width)
+    return width.where(cost != 0, torch.zeros_like(width))
 
 
 def svi_variance(
